@@ -244,6 +244,47 @@ func c29(r *core.Run) {
 				}
 			}
 			r.Check("fresh-result-only", "QueryFilter:both-ip-versions-filtered", p.Rel(fl.Pos()), evals == 2, fmt.Sprintf("%d condition evaluations (IPv4 and IPv6 map expected)", evals))
+			// Whether an entry of the live map is returned is decided by the condition alone. Every branch of the filter
+			// closure must therefore be one of: the nil test of the condition, the iterator's Next(), the verdict of
+			// Conditional.Evaluate (possibly through a local), or a test of the query's structural IP version (the field the
+			// stored-data path uses to skip a sub-map). Any other test can leave out flows that the same query returns once
+			// they are written out.
+			fIPv := p.FieldObj(pkgGoDB, "Query", "ipVersion")
+			fCond := p.FieldObj(pkgGoDB, "Query", "Conditional")
+			gl := core.NewGraph(info, fl.Body)
+			badGuard := ""
+			for id, n := range gl.Nodes {
+				e, isExpr := n.(ast.Expr)
+				if !isExpr || len(gl.Succ[id]) != 2 || gl.Succ[id][0] == gl.Succ[id][1] {
+					continue
+				}
+				for _, leaf := range boolLeaves(resolveLocal(info, fl.Body, ast.Unparen(e))) {
+					re := resolveLocal(info, fl.Body, ast.Unparen(leaf))
+					allowed := false
+					for _, c := range core.Calls(re, false) {
+						if _, m := core.MethodCall(info, c); m == "Next" || m == "Evaluate" {
+							allowed = true
+						}
+					}
+					if u, ok := ast.Unparen(re).(*ast.UnaryExpr); ok && u.Op == token.NOT {
+						for _, c := range core.Calls(resolveLocal(info, fl.Body, ast.Unparen(u.X)), false) {
+							if _, m := core.MethodCall(info, c); m == "Evaluate" {
+								allowed = true
+							}
+						}
+					}
+					if x, y, _, ok := eqTest(re, true); ok && core.IsNil(info, y) && fCond != nil && core.SelField(info, resolveLocal(info, fl.Body, ast.Unparen(x))) == fCond {
+						allowed = true
+					}
+					if fIPv != nil && mentionsFieldR(info, fl.Body, re, fIPv) {
+						allowed = true
+					}
+					if !allowed {
+						badGuard = fmt.Sprintf("%s: `%s` decides whether entries of the live flow map are evaluated at all", p.Rel(e.Pos()), core.Str(leaf))
+					}
+				}
+			}
+			r.Check("fresh-result-only", "QueryFilter:only-the-condition-excludes-entries", p.Rel(fl.Pos()), badGuard == "", badGuard)
 		}
 	}
 	m := ruleSetOrUpdateMapping(r, p)
